@@ -9,12 +9,13 @@ def run(check, pool, Task):
     cap = 900
     check.bounds.update({'kernel': 'polygons of <= 3 rings of <= 4 (5) distinct vertices, <= 2 polygons, optional leading ring outside the slice; |v| <= 2^24',
                          'wrappers': 'arrays of 5 elements (missing, empty, 1-3 rings) and derivations of them; coordinates real-valued (polynomial sign conditions decided by nlsat)',
-                         'outside': 'invariance of intersection results under oriented() (follows from the winding-number lemmas of C01/C02 for polygons whose rings all flip together, not re-proved here)'})
+                         'intersection invariance': 'by composition: (a) valid polygons (holes wound opposite to the shell) are flipped as a whole or not at all - checked on every path; (b) the box/point oracles are symmetric under reversal of all rings (lemmas Dsym, WNsym, exact, |v|<=2^25); (c) kernel == oracle for rings wound either way (C01/C02, within their bounds)'})
     check.assumptions += ['rings are stored closed (first vertex repeated)', 'exact arithmetic (areas are exact below 2^24 / for the real-valued model)']
     kernel = [([[3]], 0), ([[4]], 0), ([[3, 3]], 0), ([[3], [3]], 0), ([[3, 3]], 1), ([[3, 3], [4]], 0), ([[2]], 0), ([[3, 0]], 0), ([[3], []], 0), ([[1]], 0)]
     if thorough:
         kernel += [([[5]], 0), ([[4, 3, 3]], 0), ([[3, 3], [3, 3]], 1), ([[3], [3], [3]], 2)]
-    tasks = []
+    tasks = [Task(f'lemma:oracle symmetry {nm} (reversing a ring does not change separation / negates the winding contribution)', c15.symmetry_lemma, (nm,), {'seed': check.seed},
+                  timeout=300, meta={'level': 'lemma'}) for nm in ('Dsym', 'WNsym')]
     for polys, lead in kernel:
         tasks.append(Task(f'kernel:orient_polygons polygons={polys} leading_rings={lead}', c15.explore, (polys,), {'lead_rings': lead, 'timeout': cap - 60},
                           timeout=cap, meta={'level': 'kernel', 'polys': polys, 'lead': lead}))
@@ -38,7 +39,7 @@ def run(check, pool, Task):
         if r['status'] == 'violated':
             try:
                 if m['level'] == 'kernel':
-                    bad, wit = c15.replay(m['polys'], m['lead'], r['model'], m.get('int_dtype'))
+                    bad, wit = c15.replay(m['polys'], m['lead'], _integral(r['model']), m.get('int_dtype'))
                 else:
                     model = _integral(r.get('model') or {})
                     bad, wit = c15.replay_oriented(m['kind'], m['deriv'], model, dtype=m.get('dtype', 'float64'))
